@@ -67,7 +67,7 @@ def mc(module, cfg, workers=8, timeout=900, extra=()):
     return r
 
 
-NOWIRE = {"case", "hashseed", "src", "tags", "nontrivial", "negctl_of", "corruption"}
+NOWIRE = {"case", "hashseed", "src", "tags", "nontrivial", "negctl_of", "corruption", "text"}
 VERDICT_RE = re.compile(r'^"(\{.*\})"$')
 
 
